@@ -13,49 +13,55 @@ Local Opaque peval fixpoly r.
 Section Sim.
 Context {S : Type}.
 Variable step : S -> call -> S * result * list event.
-Variable astep : astate -> call -> astate * rclass.
+Variable p : proto.
+Variable cf : cfg.
+Variable dealer : bool.
 Variable inv : S -> Prop.
 Variable abs : S -> astate.
 
 Hypothesis step_sim : forall s c, inv s ->
   let '(s', res, _) := step s c in
-  let '(A', k) := astep (abs s) c in
+  let '(A', k) := aut_step p cf dealer (abs s) c in
   inv s' /\ abs s' = A' /\ class_of res = Some k.
 
-Fixpoint atrace (A : astate) (cs : list call) : list rclass :=
-  match cs with
-  | [] => []
-  | c :: cs' => let '(A', k) := astep A c in k :: atrace A' cs'
-  end.
-
 Lemma run_follows : forall cs s, inv s ->
-  map (fun o => class_of (fst o)) (run step s cs) = map Some (atrace (abs s) cs).
+  map (fun o => class_of (fst o)) (run step s cs) = map Some (aut_trace p cf dealer (abs s) cs).
 Proof.
   induction cs as [|c cs IH]; intros s Hs; [reflexivity|].
-  cbn [run atrace]. pose proof (step_sim s c Hs) as H.
-  destruct (step s c) as [[s' res] ev]. destruct (astep (abs s) c) as [A' k].
+  cbn [run aut_trace]. pose proof (step_sim s c Hs) as H.
+  destruct (step s c) as [[s' res] ev]. destruct (aut_step p cf dealer (abs s) c) as [A' k].
   destruct H as (Hi & Ha & Hc). cbn [map fst]. rewrite Hc. f_equal.
   subst A'. destruct res; try (apply IH; assumption); discriminate Hc.
 Qed.
 
-Lemma atrace_length : forall cs A, length (atrace A cs) = length cs.
+Lemma aut_trace_length : forall cs A, length (aut_trace p cf dealer A cs) = length cs.
 Proof.
   induction cs as [|c cs IH]; intros A; [reflexivity|].
-  cbn. destruct (astep A c). cbn. f_equal. apply IH.
+  cbn [aut_trace]. destruct (aut_step p cf dealer A c). cbn. f_equal. apply IH.
 Qed.
 
 Lemma run_length : forall cs s, inv s -> length (run step s cs) = length cs.
 Proof.
   intros cs s Hs. pose proof (run_follows cs s Hs) as H.
-  apply (f_equal (@length _)) in H. rewrite !map_length in H. rewrite H. apply atrace_length.
+  apply (f_equal (@length _)) in H. rewrite !map_length in H. rewrite H. apply aut_trace_length.
 Qed.
 
 Lemma final_inv : forall cs s, inv s -> inv (final step s cs).
 Proof.
   induction cs as [|c cs IH]; intros s Hs; [exact Hs|].
   cbn [final]. pose proof (step_sim s c Hs) as H.
-  destruct (step s c) as [[s' res] ev]. destruct (astep (abs s) c) as [A' k].
+  destruct (step s c) as [[s' res] ev]. destruct (aut_step p cf dealer (abs s) c) as [A' k].
   destruct H as (Hi & _ & Hc). destruct res; try (apply IH; assumption); discriminate Hc.
+Qed.
+
+Lemma final_abs : forall cs s A, inv s -> abs s = A ->
+  abs (final step s cs) = fold_left (fun A c => fst (aut_step p cf dealer A c)) cs A.
+Proof.
+  induction cs as [|c cs IH]; intros s A Hs HA; [exact HA|].
+  cbn [final fold_left]. pose proof (step_sim s c Hs) as H.
+  destruct (step s c) as [[s' res] ev]. rewrite HA in H.
+  destruct (aut_step p cf dealer A c) as [A' k]. cbn [fst].
+  destruct H as (Hi & Ha & Hc). destruct res; try (apply IH; assumption); discriminate Hc.
 Qed.
 End Sim.
 
@@ -77,10 +83,10 @@ Proof.
   - destruct (gen_loop cf a js) as [[ev ys] ok]. destruct IH as (IH1 & IH2 & IH3).
     fold my. rewrite (Nat.eqb_sym my j).
     destruct (Nat.eqb_spec j my) as [->|Hne].
-    + destruct (peval a (Z.of_nat my + 1) =? 0) eqn:E0; cbn [length].
-      * repeat split; try lia. discriminate.
-      * rewrite andb_false_r in *. cbn in IH3. repeat split; try lia. intros; f_equal; auto. exact IH3.
-    + cbn [length orb]. repeat split; try lia. intros; f_equal; auto. exact IH3.
+    + destruct (peval a (Z.of_nat my + 1) =? 0) eqn:E0; cbn [length orb andb negb].
+      * split; [lia|]. split; [discriminate|reflexivity].
+      * rewrite andb_false_r in *. cbn in IH3. split; [lia|]. split; [intros; f_equal; auto|exact IH3].
+    + cbn [length orb]. split; [lia|]. split; [intros; f_equal; auto|exact IH3].
 Qed.
 
 Lemma existsb_seq_my k : (my < k)%nat -> existsb (Nat.eqb my) (seq 0 k) = true.
@@ -129,7 +135,7 @@ Lemma verify_share_some v : (forall ys, v_y v = Some ys -> length ys = n) ->
 Proof.
   intros H [ys E]. unfold verify_share. rewrite E. specialize (H ys E).
   destruct (nth_error ys (c_my cf)) eqn:En; [eauto|].
-  apply nth_error_None in En. fold n my in *. lia.
+  apply nth_error_None in En. unfold n in H. lia.
 Qed.
 
 (* generateShares keeps well-formedness and succeeds iff the seed does not fail *)
@@ -141,24 +147,38 @@ Lemma gen_shares_spec sd v : my = d -> v_wf v ->
   (forall a0 al, v_a v = Some (a0 :: al) -> exists a0 al, v_a v' = Some (a0 :: al)).
 Proof.
   intros Hd Hwf. unfold gen_shares, seed_fails. destruct sd as [|a0].
-  { repeat split; auto; try apply Hwf; try discriminate. eauto. }
+  { split; [exact Hwf|]. split; [reflexivity|]. split; [auto|]. split; [discriminate|eauto]. }
   pose proof (gen_loop_spec cf (fixpoly (c_t cf) a0) (seq 0 (c_n cf))) as HL.
   destruct (gen_loop cf (fixpoly (c_t cf) a0) (seq 0 (c_n cf))) as [[ev ys] ok].
   destruct HL as (L1 & L2 & L3). rewrite seq_length in L1, L2.
   rewrite existsb_seq_my in L3 by exact Hmy. cbn [andb] in L3.
   destruct (fixpoly_cons (c_t cf) a0) as (b0 & bl & Eb).
   assert (Hlen : length (ys ++ repeat 0 (c_n cf - length ys)) = n).
-  { rewrite app_length, repeat_length. fold n. unfold n. lia. }
+  { rewrite app_length, repeat_length. unfold n. lia. }
   destruct Hwf as (W1 & W3 & W4 & W5).
   destruct ok; cbn in L3.
-  - apply negb_true_iff in L3. rewrite L3. unfold v_wf. cbn. rewrite Eb.
-    repeat split; try discriminate; eauto; try congruence.
-    intros ys' E. inversion E; subst. exact Hlen.
-  - apply negb_false_iff in L3. rewrite L3. unfold v_wf. cbn. rewrite Eb.
-    repeat split; try discriminate; eauto; try congruence.
-    + intros ys' E. inversion E; subst. exact Hlen.
-    + intro Hv. destruct (W3 Hv) as [Hr _]. exact Hr.
+  - symmetry in L3. apply negb_true_iff in L3. rewrite L3. unfold v_wf. cbn. rewrite Eb.
+    split; [|split; [reflexivity|split; [discriminate|split; eauto]]].
+    split; [intros ys' E; inversion E; subst; exact Hlen|].
+    split; [eauto|]. split; [eauto|]. intros; congruence.
+  - symmetry in L3. apply negb_false_iff in L3. rewrite L3. unfold v_wf. cbn. rewrite Eb.
+    split; [|split; [reflexivity|split; [discriminate|split; [discriminate|eauto]]]].
+    split; [intros ys' E; inversion E; subst; exact Hlen|].
+    split; [intro Hv; destruct (W3 Hv) as [Hr _]; eauto|].
+    split; [eauto|]. intros; congruence.
 Qed.
+
+Ltac wfin :=
+  unfold v_wf in *; cbn in *;
+  repeat match goal with
+  | H : _ /\ _ |- _ => destruct H
+  | |- _ /\ _ => split
+  end; intros; subst;
+  repeat match goal with
+  | H : Some _ = Some _ |- _ => inversion H; subst; clear H
+  | H : exists _, _ |- _ => destruct H
+  end;
+  try discriminate; try congruence; try reflexivity; eauto using pubkeys_length.
 
 Lemma vss_step_sim s c : vinv s ->
   let '(s', res, _) := vss_step cf d s c in
@@ -180,8 +200,9 @@ Proof.
     destruct (v_valid v) eqn:Ev; cbn; [|auto].
     destruct Hwf as (W1 & W3 & W4 & W5). destruct (W3 Ev) as [Hr (ys & Ey)].
     destruct (W4 Hr (ex_intro _ ys Ey)) as (a0 & al & Ea).
-    unfold end_keys. rewrite Ea, Ey. rewrite (W1 _ Ey). fold n. rewrite Nat.ltb_irrefl.
-    repeat split; auto. destruct (v_x v =? 0); [reflexivity|]. destruct (a0 =? 0); reflexivity.
+    unfold end_keys. rewrite Ea, Ey. rewrite (W1 _ Ey). fold n. rewrite ?Nat.ltb_irrefl.
+    split; [unfold v_wf; auto|]. split; [reflexivity|].
+    destruct (v_x v =? 0); [reflexivity|]. destruct (a0 =? 0); reflexivity.
   - auto.
   - (* HandleBroadcastMsg *)
     unfold vss_broadcast. destruct run; cbn; [|auto].
@@ -192,25 +213,18 @@ Proof.
     destruct (Nat.eqb_spec (Z.to_nat o) d) as [Eod|Eod]; cbn; [|auto].
     assert (Hnd : my <> d) by (unfold my; congruence).
     destruct (v_vArecv v) eqn:Er; cbn; [auto|].
-    destruct Hwf as (W1 & W3 & W4 & W5).
+    pose proof Hwf as (W1 & W3 & W4 & W5).
     pose proof (W5 Hnd Er) as Ey.
     destruct vb as [|k|l]; cbn.
-    + repeat split; auto; cbn; try discriminate; try congruence.
-      intros _ [ys E]. congruence.
-    + repeat split; auto; cbn; try discriminate; try congruence.
-      intros _ [ys E]. congruence.
+    + wfin.
+    + wfin.
     + set (v1 := set_vArecv _ true).
       destruct (fixpoly_cons (c_t cf) l) as (a0 & al & Ea).
-      assert (Wv1 : v_wf v1).
-      { unfold v_wf, v1. cbn. rewrite Ea. repeat split; eauto; try discriminate.
-        - intros ys E. inversion E. apply pubkeys_length.
-        - intro Hv. destruct (W3 Hv). congruence. }
-      destruct (v_xrecv v) eqn:Ex; cbn [v_xrecv v1 set_vArecv set_y set_vA]; rewrite Ex.
+      assert (Wv1 : v_wf v1) by (unfold v1; rewrite Ea; wfin).
+      destruct (v_xrecv v) eqn:Ex; cbn [v_xrecv v1 set_vArecv set_y set_vA]; rewrite ?Ex.
       * destruct (verify_share_some v1) as [b Eb]; [apply Wv1|cbn; eauto|].
-        rewrite Eb. cbn. repeat split; auto.
-        destruct Wv1 as (V1 & V3 & V4 & V5). unfold v_wf. cbn in *. rewrite Ea in *.
-        repeat split; eauto.
-      * cbn. repeat split; auto.
+        unfold verify_share in Eb. cbn in Eb. rewrite Eb. cbn. unfold v1 in *. rewrite Ea in *. clear Eb. wfin.
+      * cbn. auto.
   - (* HandlePrivateMsg *)
     unfold vss_private. destruct run; cbn; [|auto].
     destruct (in_range cf o); cbn; [|auto].
@@ -218,9 +232,8 @@ Proof.
     unfold vss_receive_share.
     destruct (Nat.eqb_spec (Z.to_nat o) d) as [Eod|Eod]; cbn; [|auto].
     destruct (v_xrecv v) eqn:Ex; cbn; [auto|].
-    destruct Hwf as (W1 & W3 & W4 & W5).
-    assert (Hbad : v_wf (set_valid (set_xrecv v true) false)).
-    { unfold v_wf. cbn. repeat split; auto; discriminate. }
+    pose proof Hwf as (W1 & W3 & W4 & W5).
+    assert (Hbad : v_wf (set_valid (set_xrecv v true) false)) by wfin.
     destruct m as [|sb|vb|cb|ab|tg]; cbn; auto.
     destruct sb as [|z]; cbn; auto.
     destruct (read_star z (v_x v)) as [ok x'] eqn:Ers. cbn.
@@ -228,19 +241,844 @@ Proof.
     + destruct (v_vArecv v) eqn:Er; cbn.
       * destruct (v_y v) as [ys|] eqn:Ey; cbn.
         -- set (v2 := set_x _ x').
-           destruct (verify_share_some v2) as [b Eb]; [exact W1|cbn; eauto|].
-           rewrite Eb. cbn. repeat split; auto.
-           unfold v_wf. cbn. rewrite Er, Ey. repeat split; eauto.
-        -- repeat split; auto. unfold v_wf. cbn. rewrite Er, Ey. repeat split; auto.
-           intro Hv. destruct (W3 Hv) as [_ [ys E]]. congruence.
-      * repeat split; auto. unfold v_wf. cbn. rewrite Er. repeat split; auto.
-        intro Hv. destruct (W3 Hv). congruence.
-    + repeat split; auto. unfold v_wf. cbn. repeat split; auto; discriminate.
+           destruct (verify_share_some v2) as [b Eb]; [intros ys' E; cbn in E; rewrite Ey in E; exact (W1 _ E)|cbn; rewrite Ey; eauto|].
+           rewrite Eb. cbn. clear Eb. unfold v2. wfin.
+        -- wfin.
+      * wfin.
+    + wfin.
   - (* ForceDisqualify *)
     unfold vss_force. destruct run; cbn; [|auto].
     destruct (in_range cf j); cbn; [|auto].
     destruct (Nat.eqb (Z.to_nat j) d); cbn; auto.
-    repeat split; auto; cbn; try apply Hwf; discriminate.
+    wfin.
 Qed.
 
+
+Lemma vss_init_inv : vinv vss_init.
+Proof. unfold vinv, v_wf. cbn. repeat split; intros; try discriminate; try reflexivity;
+  repeat match goal with H : exists _, _ |- _ => destruct H end; discriminate. Qed.
+
+Theorem vss_api_follows_automaton cs :
+  map (fun o => class_of (fst o)) (run (vss_step cf d) vss_init cs)
+  = map Some (aut_trace PVss cf dealer a_init cs).
+Proof. exact (run_follows (vss_step cf d) PVss cf dealer vinv vabs vss_step_sim cs vss_init vss_init_inv). Qed.
+
+Theorem vss_run_complete cs : length (run (vss_step cf d) vss_init cs) = length cs.
+Proof. exact (run_length (vss_step cf d) PVss cf dealer vinv vabs vss_step_sim cs vss_init vss_init_inv). Qed.
+
+(* the only refused call that is not a literal no-op: a dealer Start whose polynomial gives
+   the dealer itself a zero share (probability 1/r over the seed) *)
+Definition degenerate_start (dl : bool) (c : call) : bool :=
+  match c with
+  | CStart (SeedOk a) => dl && seed_fails cf (SeedOk a)
+  | _ => false
+  end.
+
+Definition is_refusal (res : result) : Prop := res = RStateErr \/ res = RInvalidInput.
+
+Lemma end_keys_not_refusal x vA y : ~ is_refusal (end_keys cf x vA y).
+Proof.
+  unfold end_keys, is_refusal. intros [E|E]; repeat brk_hyp E; discriminate.
+Qed.
+
+Lemma lift_not_refusal run v h s' res ev :
+  pack (lift run v h) = (s', res, ev) -> ~ is_refusal res.
+Proof. destruct h as [[v' e]|]; cbn; intros H [E|E]; inversion H; subst; discriminate. Qed.
+
+Lemma vss_refused_noop s c s' res ev :
+  vss_step cf d s c = (s', res, ev) -> is_refusal res -> degenerate_start dealer c = false ->
+  s' = s /\ ev = [].
+Proof.
+  destruct s as [run v]. intros H Hr Hdeg.
+  destruct c as [sd| | | |o m|o m|j]; cbn [vss_step vs_run vs_v] in H.
+  - (* Start *)
+    unfold vss_start in H. destruct run; cbn in H; [inversion H; subst; auto|].
+    destruct (Nat.eqb d (c_my cf)) eqn:Ed; cbn in H; [|inversion H; subst; destruct Hr; discriminate].
+    destruct sd as [|a0]; [cbn in H; inversion H; subst; auto|].
+    exfalso. unfold degenerate_start, dealer in Hdeg. unfold my in Hdeg.
+    rewrite (Nat.eqb_sym (c_my cf) d), Ed in Hdeg. cbn [andb] in Hdeg.
+    unfold gen_shares in H.
+    pose proof (gen_loop_spec cf (fixpoly (c_t cf) a0) (seq 0 (c_n cf))) as HL.
+    destruct (gen_loop cf (fixpoly (c_t cf) a0) (seq 0 (c_n cf))) as [[ev0 ys] ok].
+    destruct HL as (_ & _ & L3). rewrite existsb_seq_my in L3 by exact Hmy. cbn [andb] in L3.
+    unfold seed_fails in Hdeg. rewrite Hdeg in L3. cbn in L3. subst ok. cbn in H.
+    inversion H; subst. destruct Hr; discriminate.
+  - inversion H; subst. destruct Hr; discriminate.
+  - (* End *)
+    unfold vss_end in H. destruct run; cbn in H; [|inversion H; auto].
+    destruct (v_valid v); cbn in H; inversion H; subst.
+    + exfalso. eapply end_keys_not_refusal; eauto.
+    + destruct Hr; discriminate.
+  - inversion H; subst. destruct Hr; discriminate.
+  - unfold vss_broadcast in H. destruct run; cbn in H; [|inversion H; auto].
+    destruct (in_range cf o); cbn in H; [|inversion H; auto].
+    destruct (Nat.eqb (c_my cf) (Z.to_nat o)); [inversion H; subst; destruct Hr; discriminate|].
+    destruct m; try (inversion H; subst; destruct Hr; discriminate).
+    exfalso. eapply lift_not_refusal; eauto.
+  - unfold vss_private in H. destruct run; cbn in H; [|inversion H; auto].
+    destruct (in_range cf o); cbn in H; [|inversion H; auto].
+    destruct (Nat.eqb (c_my cf) (Z.to_nat o)); [inversion H; subst; destruct Hr; discriminate|].
+    exfalso. eapply lift_not_refusal; eauto.
+  - unfold vss_force in H. destruct run; cbn in H; [|inversion H; auto].
+    destruct (in_range cf j); cbn in H; [|inversion H; auto].
+    destruct (Nat.eqb (Z.to_nat j) d); inversion H; subst; destruct Hr; discriminate.
+Qed.
+
+Lemma vss_end_not_running s s' res ev :
+  vss_step cf d s CEnd = (s', res, ev) -> (res = RStateErr -> s' = s) /\ (res <> RStateErr -> vs_run s' = false).
+Proof.
+  destruct s as [run v]. cbn [vss_step vs_run vs_v]. unfold vss_end.
+  destruct run; cbn; [|intro H; inversion H; subst; split; [auto|congruence]].
+  destruct (v_valid v); cbn; intro H; inversion H; subst; cbn; split; auto; try discriminate.
+  intro E. exfalso. unfold end_keys in E. repeat brk_hyp E; discriminate.
+Qed.
+
+Lemma vss_nexttimeout_noop s : vss_step cf d s CNextTimeout = (s, ROk, []).
+Proof. reflexivity. Qed.
+
 End Vss.
+
+(* ------------------------------------------------------------------ *)
+(* Feldman VSS with qualification                                       *)
+(* ------------------------------------------------------------------ *)
+Section Qual.
+Variable cf : cfg.
+Variable d : nat.
+Hypothesis Hmy : (c_my cf < c_n cf)%nat.
+
+Let n := c_n cf.
+Let my := c_my cf.
+Let dealer := Nat.eqb my d.
+
+Definition b2n (b : bool) : nat := if b then 1%nat else 0%nat.
+
+Definition qabs (s : qstate) : astate :=
+  mkA (qs_run s) (b2n (q_st (qs_q s)) + b2n (q_ct (qs_q s))).
+
+(* instance invariant (no-panic and End) *)
+Definition q_wf (q : qinst) : Prop :=
+  v_wf cf d (q_v q) /\
+  (v_vArecv (q_v q) = true -> q_disq q = false -> exists ys, v_y (q_v q) = Some ys) /\
+  (q_st q = true -> q_disq q = false -> v_vArecv (q_v q) = true) /\
+  (q_ct q = true -> q_st q = true).
+
+Definition qinv (s : qstate) : Prop :=
+  q_wf (qs_q s) /\
+  (my = d -> qs_run s = true -> exists a0 al, v_a (q_v (qs_q s)) = Some (a0 :: al)).
+
+(* what the handlers leave alone *)
+Definition pres (q q' : qinst) : Prop :=
+  q_st q' = q_st q /\ q_ct q' = q_ct q /\ v_a (q_v q') = v_a (q_v q).
+
+Definition has_y (v : vinst) : Prop := exists ys, v_y v = Some ys /\ length ys = n.
+
+Lemma wf_has_y q : q_wf q -> v_vArecv (q_v q) = true -> q_disq q = false -> has_y (q_v q).
+Proof.
+  intros (W & Q1 & _) Hr Hd. destruct (Q1 Hr Hd) as [ys E]. exists ys. split; [exact E|].
+  destruct W as (W1 & _). apply W1. exact E.
+Qed.
+
+Lemma has_y_verify v : has_y v -> exists b, verify_share cf v = Some b.
+Proof.
+  intros (ys & E & L). unfold verify_share. rewrite E.
+  destruct (nth_error ys (c_my cf)) eqn:En; [eauto|]. apply nth_error_None in En. unfold n in L. lia.
+Qed.
+
+Lemma has_y_check v c val : has_y v -> (c < n)%nat -> exists b, check_complaint v c val = Some b.
+Proof.
+  intros (ys & E & L) Hc. unfold check_complaint. rewrite E.
+  destruct (nth_error ys c) eqn:En; [eauto|]. apply nth_error_None in En. lia.
+Qed.
+
+Ltac qfin :=
+  unfold pres, q_wf, v_wf in *; cbn in *;
+  repeat match goal with
+  | H : _ /\ _ |- _ => destruct H
+  | |- _ /\ _ => split
+  end; intros; subst;
+  repeat match goal with
+  | H : Some _ = Some _ |- _ => inversion H; subst; clear H
+  | H : exists _, _ |- _ => destruct H
+  end;
+  try discriminate; try congruence; try reflexivity; eauto using pubkeys_length;
+  repeat match goal with
+  | H : ?A -> _, H' : ?A |- _ => match type of A with Prop => specialize (H H') end
+  | H : ?x = ?x -> _ |- _ => specialize (H eq_refl)
+  end;
+  repeat match goal with
+  | H : _ /\ _ |- _ => destruct H
+  | H : exists _, _ |- _ => destruct H
+  end;
+  try discriminate; try congruence; eauto.
+
+Lemma build_complaint_ok q : q_wf q -> q_disq q = false ->
+  exists q' ev, build_complaint cf d q = Some (q', ev) /\ q_wf q' /\ pres q q'.
+Proof.
+  intros Hwf Hd. unfold build_complaint.
+  assert (Hgo : forall old,
+    exists q' ev,
+      (let v := q_v q in
+       if v_vArecv v && v_xrecv v && match verify_share cf v with None => true | Some _ => false end
+       then None
+       else
+         let entry := match old with None => mkC true false 0 | Some c => mkC true (c_ans c) (c_val c) end in
+         let q1 := qset_compl q (upd (q_compl q) (c_my cf) entry) in
+         let ev := [EvFlag d; EvBcast (MComplaint (CIdx (Z.of_nat d)))] in
+         match old with
+         | Some c =>
+             if c_ans c then
+               if v_vArecv v then
+                 match check_complaint v (c_my cf) (c_val c) with
+                 | None => None
+                 | Some bad =>
+                     let q2 := qset_disq q1 bad in
+                     if bad then Some (q2, ev ++ [EvDisq d])
+                     else Some (qset_v q2 (set_x (q_v q2) (c_val c)), ev)
+                 end
+               else if q_disq q1 then Some (q1, ev) else Some (qset_v q1 (set_x (q_v q1) (c_val c)), ev)
+             else Some (q1, ev)
+         | None => Some (q1, ev)
+         end) = Some (q', ev) /\ q_wf q' /\ pres q q').
+  { intro old. cbn zeta.
+    destruct (v_vArecv (q_v q)) eqn:Er.
+    - pose proof (wf_has_y q Hwf Er Hd) as Hy.
+      destruct (has_y_verify _ Hy) as [b Eb]. rewrite Eb. rewrite andb_false_r.
+      destruct old as [c|]; [|eexists; eexists; split; [reflexivity|]; qfin].
+      destruct (c_ans c); [|eexists; eexists; split; [reflexivity|]; qfin].
+      destruct (has_y_check _ (c_my cf) (c_val c) Hy Hmy) as [bad Ebad]. rewrite Ebad.
+      destruct bad; eexists; eexists; (split; [reflexivity|]); qfin.
+    - cbn [andb]. destruct old as [c|]; [|eexists; eexists; split; [reflexivity|]; qfin].
+      destruct (c_ans c); [|eexists; eexists; split; [reflexivity|]; qfin].
+      cbn. rewrite Hd. eexists; eexists; (split; [reflexivity|]); qfin. }
+  destruct (q_compl q (c_my cf)) as [c|] eqn:Ec.
+  - destruct (c_recv c).
+    + eexists; eexists; split; [reflexivity|]. split; [exact Hwf|]. unfold pres. auto.
+    + exact (Hgo (Some c)).
+  - exact (Hgo None).
+Qed.
+
+Lemma pres_trans q1 q2 q3 : pres q1 q2 -> pres q2 q3 -> pres q1 q3.
+Proof. unfold pres. intros (A & B & C) (A' & B' & C'). repeat split; congruence. Qed.
+
+Ltac done_some := eexists; eexists; (split; [reflexivity|]); qfin.
+
+Lemma q_receive_share_ok o m q : q_wf q -> q_disq q = false ->
+  exists q' ev, q_receive_share cf d o m q = Some (q', ev) /\ q_wf q' /\ pres q q'.
+Proof.
+  intros Hwf Hd. unfold q_receive_share.
+  destruct (Nat.eqb o d); cbn [negb]; [|done_some].
+  destruct (q_st q) eqn:Est; [done_some|].
+  destruct (v_xrecv (q_v q)) eqn:Ex; [done_some|].
+  set (q1 := qset_v q (set_xrecv (q_v q) true)).
+  assert (W1 : q_wf q1) by (unfold q1; qfin).
+  assert (D1 : q_disq q1 = false) by exact Hd.
+  assert (P1 : pres q q1) by (unfold q1; qfin).
+  assert (Hcf : forall q2, q_wf q2 -> q_disq q2 = false -> pres q q2 ->
+    exists q' ev, match build_complaint cf d q2 with
+                  | Some (q3, ev) => Some (q3, ev ++ [EvFlag o])
+                  | None => None end = Some (q', ev) /\ q_wf q' /\ pres q q').
+  { intros q2 W2 D2 P2. destruct (build_complaint_ok q2 W2 D2) as (q' & ev & E & W & P).
+    rewrite E. eexists; eexists; split; [reflexivity|]. split; [exact W|]. exact (pres_trans _ _ _ P2 P). }
+  destruct m as [|sb|vb|cb|ab|tg]; try (apply Hcf; assumption).
+  destruct sb as [|z]; [apply Hcf; assumption|].
+  destruct (read_star z (v_x (q_v q1))) as [ok x'] eqn:Ers.
+  set (q2 := qset_v q1 (set_x (q_v q1) x')).
+  assert (W2 : q_wf q2) by (unfold q2, q1; qfin).
+  assert (P2 : pres q q2) by (unfold q2, q1; qfin).
+  destruct ok; cbn [negb]; [|apply Hcf; assumption].
+  destruct (v_vArecv (q_v q2)) eqn:Er; [|eexists; eexists; split; [reflexivity|]; split; assumption].
+  pose proof (wf_has_y q2 W2 Er Hd) as Hy. destruct (has_y_verify _ Hy) as [b Eb]. rewrite Eb.
+  destruct b; [eexists; eexists; split; [reflexivity|]; split; assumption|].
+  destruct (build_complaint_ok q2 W2 Hd) as (q' & ev & E & W & P). rewrite E.
+  eexists; eexists; split; [reflexivity|]. split; [exact W|]. exact (pres_trans _ _ _ P2 P).
+Qed.
+
+Lemma bad_answer_in_some v m js : has_y v -> (forall j, In j js -> (j < n)%nat) ->
+  exists b, bad_answer_in v m js = Some b.
+Proof.
+  intros Hy. induction js as [|j js IH]; intros Hj; cbn [bad_answer_in]; [eauto|].
+  assert (IH' : exists b, bad_answer_in v m js = Some b) by (apply IH; intros; apply Hj; right; assumption).
+  destruct (m j) as [c|]; [|exact IH'].
+  destruct (c_recv c && c_ans c); [|exact IH'].
+  destruct (has_y_check v j (c_val c) Hy) as [b Eb]; [apply Hj; left; reflexivity|].
+  rewrite Eb. destruct b; [eauto|exact IH'].
+Qed.
+
+Lemma q_receive_vector_ok o vb q : q_wf q -> q_disq q = false -> o <> my ->
+  exists q' ev, q_receive_vector cf d o vb q = Some (q', ev) /\ q_wf q' /\ pres q q'.
+Proof.
+  intros Hwf Hd Hom. unfold q_receive_vector.
+  destruct (Nat.eqb_spec o d) as [Eod|Eod]; cbn [negb]; [|done_some].
+  assert (Hnd : my <> d) by congruence.
+  destruct (q_st q) eqn:Est; [done_some|].
+  destruct (v_vArecv (q_v q)) eqn:Er; [done_some|].
+  assert (Ey : v_y (q_v q) = None) by (destruct Hwf as ((_ & _ & _ & W5) & _); exact (W5 Hnd Er)).
+  destruct vb as [|k|l].
+  - done_some.
+  - done_some.
+  - destruct (fixpoly_cons (c_t cf) l) as (a0 & al & Ea).
+    set (v2 := set_y (set_vA (set_vArecv (q_v q) true) (VAFull (fixpoly (c_t cf) l))) (Some (pubkeys cf (fixpoly (c_t cf) l)))).
+    set (q1 := qset_v q v2).
+    assert (Hy : has_y v2).
+    { exists (pubkeys cf (fixpoly (c_t cf) l)). split; [reflexivity|apply pubkeys_length]. }
+    assert (W1 : q_wf q1) by (unfold q1, v2; rewrite Ea; qfin).
+    assert (P1 : pres q q1) by (unfold q1, v2; qfin).
+    destruct (bad_answer_in_some v2 (q_compl q1) (seq 0 (c_n cf)) Hy) as [b Eb].
+    { intros j Hj. apply in_seq in Hj. unfold n. lia. }
+    rewrite Eb. destruct b.
+    + eexists; eexists; split; [reflexivity|]. unfold q1, v2. rewrite Ea. qfin.
+    + destruct (v_xrecv v2) eqn:Ex; [|eexists; eexists; split; [reflexivity|]; split; assumption].
+      destruct (has_y_verify _ Hy) as [b Eb']. rewrite Eb'.
+      destruct b; [eexists; eexists; split; [reflexivity|]; split; assumption|].
+      destruct (build_complaint_ok q1 W1 Hd) as (q' & ev & E & W & P). rewrite E.
+      eexists; eexists; split; [reflexivity|]. split; [exact W|]. exact (pres_trans _ _ _ P1 P).
+Qed.
+
+Lemma q_receive_complaint_ok o cb q : q_wf q -> q_disq q = false -> (o < n)%nat ->
+  (my = d -> exists a0 al, v_a (q_v q) = Some (a0 :: al)) ->
+  exists q' ev, q_receive_complaint cf d o cb q = Some (q', ev) /\ q_wf q' /\ pres q q'.
+Proof.
+  intros Hwf Hd Ho Ha. unfold q_receive_complaint.
+  destruct (q_ct q) eqn:Ect; [done_some|].
+  assert (Hdo : exists q' ev, (if Nat.eqb o d then Some (qset_disq q true, [EvDisq o]) else Some (q, []))
+                             = Some (q', ev) /\ q_wf q' /\ pres q q').
+  { destruct (Nat.eqb o d); done_some. }
+  destruct cb as [|b]; [exact Hdo|].
+  destruct (Z.of_nat (c_n cf) <=? b); [exact Hdo|].
+  destruct (Nat.eqb o d); [done_some|]. cbn [negb].
+  destruct (Nat.eqb (Z.to_nat b) d); cbn [negb]; [|done_some].
+  destruct (q_compl q o) as [c|] eqn:Ec.
+  - destruct (c_recv c); [done_some|].
+    set (q1 := qset_compl q _).
+    destruct (v_vArecv (q_v q1)) eqn:Er; cbn [andb]; [|done_some].
+    destruct (c_ans c); cbn [andb]; [|done_some].
+    destruct (negb (Nat.eqb (c_my cf) d)); [|done_some].
+    assert (Hy : has_y (q_v q1)) by (apply (wf_has_y q Hwf Er Hd)).
+    destruct (has_y_check _ o (c_val c) Hy Ho) as [bad Eb]. rewrite Eb.
+    destruct bad; done_some.
+  - destruct (Nat.eqb_spec (c_my cf) d) as [Emd|Emd]; [|done_some].
+    unfold build_answer. destruct (Ha Emd) as (a0 & al & Ea). cbn [qset_compl q_v q_compl]. rewrite Ea.
+    unfold upd at 1. rewrite Nat.eqb_refl. done_some.
+Qed.
+
+Lemma q_receive_answer_ok o ab q : q_wf q -> q_disq q = false ->
+  exists q' ev, q_receive_answer cf d o ab q = Some (q', ev) /\ q_wf q' /\ pres q q'.
+Proof.
+  intros Hwf Hd. unfold q_receive_answer.
+  destruct (Nat.eqb o d); cbn [negb]; [|done_some].
+  destruct ab as [|b z]; [done_some|].
+  destruct (Z.of_nat (c_n cf) <=? b) eqn:Eb; [done_some|].
+  assert (Hc : (Z.to_nat b < n)%nat) by (apply Z.leb_gt in Eb; unfold n; lia).
+  destruct (q_compl q (Z.to_nat b)) as [k|] eqn:Ek.
+  - destruct (c_ans k); [done_some|].
+    destruct (c_recv k); [|done_some].
+    destruct (read_star z (c_val k)) as [ok val].
+    destruct ok; cbn [negb]; [|done_some].
+    set (q1 := qset_compl q _).
+    destruct (v_vArecv (q_v q1)) eqn:Er.
+    + assert (Hy : has_y (q_v q1)) by (apply (wf_has_y q Hwf Er Hd)).
+      destruct (has_y_check _ (Z.to_nat b) val Hy Hc) as [bad Ebad]. rewrite Ebad.
+      destruct bad; cbn [qset_disq q_disq negb andb].
+      * done_some.
+      * destruct (Nat.eqb (Z.to_nat b) (c_my cf)); done_some.
+    + replace (q_disq q1) with false by (symmetry; exact Hd). cbn [negb andb].
+      destruct (Nat.eqb (Z.to_nat b) (c_my cf)); done_some.
+  - destruct (read_star z 0) as [ok val]. destruct ok; done_some.
+Qed.
+
+Lemma gen_shares_more sd v :
+  let '(v', res, ev) := gen_shares cf sd v in
+  (v_vArecv v = true -> v_vArecv v' = true) /\ (v' = v \/ exists ys, v_y v' = Some ys).
+Proof.
+  unfold gen_shares. destruct sd as [|a0]; [auto|].
+  destruct (gen_loop cf (fixpoly (c_t cf) a0) (seq 0 (c_n cf))) as [[ev ys] ok].
+  destruct ok; cbn; split; eauto.
+Qed.
+
+Ltac afin :=
+  unfold qabs; cbn;
+  try match goal with H : q_st _ = _ |- _ => rewrite ?H end;
+  try match goal with H : q_ct _ = _ |- _ => rewrite ?H end; cbn; auto.
+
+Lemma qual_step_sim s c : qinv s ->
+  let '(s', res, _) := qual_step cf d s c in
+  let '(A', k) := aut_step PQual cf dealer (qabs s) c in
+  qinv s' /\ qabs s' = A' /\ class_of res = Some k.
+Proof.
+  intros [Hwf Ha]. destruct s as [run q]. cbn [qs_q qs_run] in *.
+  destruct c as [sd| | | |o m|o m|j];
+    cbn [qual_step qs_run qs_q aut_step qabs a_run a_to has_timeouts negb].
+  - (* Start *)
+    unfold q_start, vss_start. destruct run; cbn; [unfold qinv; cbn; auto|].
+    unfold dealer. rewrite (Nat.eqb_sym d (c_my cf)). fold my.
+    destruct (Nat.eqb_spec my d) as [Ed|Ed]; cbn; [|unfold qinv; cbn; split; [split; [exact Hwf|]; intros; congruence|auto]].
+    destruct Hwf as (W & Q1 & Q2 & Q3).
+    pose proof (gen_shares_spec cf d Hmy sd (q_v q) Ed W) as HG.
+    pose proof (gen_shares_more sd (q_v q)) as HM.
+    destruct (gen_shares cf sd (q_v q)) as [[v' res] ev].
+    destruct HG as (G1 & G2 & _ & G4 & G5). destruct HM as (M1 & M2).
+    subst res. destruct (seed_fails cf sd); cbn.
+    + split; [|auto]. unfold qinv, q_wf. cbn. split; [|intros; discriminate].
+      split; [exact G1|]. split; [|split; [|exact Q3]].
+      * intros Hr Hd. destruct M2 as [->|M2]; auto.
+      * intros Hs Hd. apply M1. auto.
+    + split; [|auto]. unfold qinv, q_wf. cbn. split; [|intros; apply G4; reflexivity].
+      split; [exact G1|]. split; [|split; [|exact Q3]].
+      * intros Hr Hd. destruct M2 as [->|M2]; auto.
+      * intros Hs Hd. apply M1. auto.
+  - (* NextTimeout *)
+    unfold q_next_timeout. destruct run; cbn; [|unfold qinv; cbn; auto].
+    pose proof Hwf as (W & Q1 & Q2 & Q3).
+    destruct (q_st q) eqn:Est, (q_ct q) eqn:Ect; try (specialize (Q3 eq_refl); discriminate); cbn.
+    + unfold qinv; cbn. rewrite ?Est, ?Ect. split; [auto|afin].
+    + destruct (q_disq q) eqn:Ed; cbn.
+      * unfold qinv; cbn. rewrite ?Est. (split; [split; [qfin|exact Ha]|]); afin.
+      * unfold set_complaints_timeout.
+        destruct (c_t cf <? ncompl cf (q_compl (qset_ct q true)))%nat; cbn; unfold qinv; cbn;
+          (split; [split; [qfin|exact Ha]|]); afin.
+    + destruct (q_disq q) eqn:Ed; cbn.
+      * unfold qinv; cbn. rewrite ?Ect. (split; [split; [qfin|exact Ha]|]); afin.
+      * unfold set_shares_timeout. cbn [qset_st q_v negb].
+        destruct (v_vArecv (q_v q)) eqn:Er; cbn [negb].
+        -- destruct (v_xrecv (q_v q)) eqn:Ex; cbn [negb].
+           ++ cbn. unfold qinv; cbn. (split; [split; [qfin|exact Ha]|]); afin.
+           ++ destruct (build_complaint_ok (qset_st q true)) as (q' & ev & E & W' & P); [qfin|exact Ed|].
+              rewrite E. cbn. destruct P as (P1 & P2 & P3). cbn in P1, P2, P3.
+              unfold qinv; cbn. rewrite P3. split; [auto|]. unfold qabs; cbn. rewrite P1, P2, ?Ect. cbn. auto.
+        -- cbn. unfold qinv; cbn. (split; [split; [qfin|exact Ha]|]); afin.
+  - (* End *)
+    unfold q_end. destruct run; cbn; [|unfold qinv; cbn; auto].
+    pose proof Hwf as (W & Q1 & Q2 & Q3).
+    destruct (q_st q) eqn:Est, (q_ct q) eqn:Ect; try (specialize (Q3 eq_refl); discriminate); cbn;
+      try (unfold qinv; cbn; rewrite ?Est, ?Ect; (split; [auto|afin]); fail).
+    destruct (q_disq q) eqn:Ed; cbn.
+    { rewrite Ed. cbn. unfold qinv; cbn. rewrite ?Est, ?Ect. split; [split; [exact Hwf|intros; discriminate]|afin]. }
+    destruct (unanswered cf (q_compl q)); cbn.
+    { unfold qinv; cbn. rewrite ?Est, ?Ect. split; [split; [qfin|intros; discriminate]|afin]. }
+    rewrite Ed. pose proof (Q2 eq_refl eq_refl) as Er. destruct (Q1 Er eq_refl) as [ys Ey].
+    destruct W as (W1 & W3 & W4 & W5). destruct (W4 Er (ex_intro _ ys Ey)) as (a0 & al & Ea).
+    unfold end_keys. rewrite Ea, Ey, (W1 _ Ey). fold n. rewrite ?Nat.ltb_irrefl.
+    destruct (v_x (q_v q) =? 0); [|destruct (a0 =? 0)]; cbn; unfold qinv; cbn; rewrite ?Est, ?Ect;
+      (split; [split; [qfin|intros; discriminate]|afin]).
+  - unfold qinv; cbn; auto.
+  - (* HandleBroadcastMsg *)
+    unfold q_broadcast. destruct run; cbn; [|unfold qinv; cbn; auto].
+    destruct (in_range cf o) eqn:Eo; cbn; [|unfold qinv; cbn; auto].
+    assert (Ho : (Z.to_nat o < n)%nat).
+    { unfold in_range in Eo. apply andb_prop in Eo as [E1 E2]. apply Z.leb_le in E1. apply Z.ltb_lt in E2. unfold n. lia. }
+    destruct (Nat.eqb_spec (c_my cf) (Z.to_nat o)) as [Emo|Emo]; cbn; [unfold qinv; cbn; auto|].
+    destruct (q_disq q) eqn:Ed; cbn; [unfold qinv; cbn; auto|].
+    assert (Hh : forall h, (exists q' ev, h = Some (q', ev) /\ q_wf q' /\ pres q q') ->
+      let '(s', res, _) := qpack (qlift true q h) in
+      qinv s' /\ qabs s' = qabs (mkQS true q) /\ class_of res = Some KOk).
+    { intros h (q' & ev & -> & W' & P1 & P2 & P3). cbn. unfold qinv, qabs; cbn. rewrite P1, P2, P3. auto. }
+    assert (Hbad : let '(s', res, _) := qpack (true, (if Nat.eqb (Z.to_nat o) d then qset_disq q true else q), ROk, [EvDisq (Z.to_nat o)]) in
+      qinv s' /\ qabs s' = qabs (mkQS true q) /\ class_of res = Some KOk).
+    { cbn. destruct (Nat.eqb (Z.to_nat o) d); unfold qinv; cbn; (split; [split; [qfin|exact Ha]|auto]). }
+    destruct m as [|sb|vb|cb|ab|tg]; try exact Hbad.
+    + apply Hh. apply q_receive_vector_ok; auto.
+    + apply Hh. apply q_receive_complaint_ok; auto.
+    + apply Hh. apply q_receive_answer_ok; auto.
+  - (* HandlePrivateMsg *)
+    unfold q_private. destruct run; cbn; [|unfold qinv; cbn; auto].
+    destruct (in_range cf o) eqn:Eo; cbn; [|unfold qinv; cbn; auto].
+    destruct (Nat.eqb_spec (c_my cf) (Z.to_nat o)) as [Emo|Emo]; cbn; [unfold qinv; cbn; auto|].
+    destruct (q_disq q) eqn:Ed; cbn; [unfold qinv; cbn; auto|].
+    destruct (q_receive_share_ok (Z.to_nat o) m q Hwf Ed) as (q' & ev & E & W' & P1 & P2 & P3).
+    rewrite E. cbn. unfold qinv, qabs; cbn. rewrite P1, P2, P3. auto.
+  - (* ForceDisqualify *)
+    unfold q_force. destruct run; cbn; [|unfold qinv; cbn; auto].
+    destruct (in_range cf j); cbn; [|unfold qinv; cbn; auto].
+    destruct (Nat.eqb (Z.to_nat j) d); cbn; unfold qinv; cbn; (split; [split; [qfin|exact Ha]|auto]).
+Qed.
+
+Lemma qual_init_inv : qinv qual_init.
+Proof.
+  unfold qinv, q_wf, v_wf. cbn. repeat split; intros; try discriminate; try reflexivity;
+  repeat match goal with H : exists _, _ |- _ => destruct H end; discriminate.
+Qed.
+
+Theorem qual_api_follows_automaton cs :
+  map (fun o => class_of (fst o)) (run (qual_step cf d) qual_init cs)
+  = map Some (aut_trace PQual cf dealer a_init cs).
+Proof. exact (run_follows (qual_step cf d) PQual cf dealer qinv qabs qual_step_sim cs qual_init qual_init_inv). Qed.
+
+Theorem qual_run_complete cs : length (run (qual_step cf d) qual_init cs) = length cs.
+Proof. exact (run_length (qual_step cf d) PQual cf dealer qinv qabs qual_step_sim cs qual_init qual_init_inv). Qed.
+
+Lemma qlift_not_refusal run q h s' res ev :
+  qpack (qlift run q h) = (s', res, ev) -> ~ is_refusal res.
+Proof. destruct h as [[v' e]|]; cbn; intros H [E|E]; inversion H; subst; discriminate. Qed.
+
+Lemma qual_refused_noop s c s' res ev :
+  qual_step cf d s c = (s', res, ev) -> is_refusal res -> degenerate_start cf dealer c = false ->
+  s' = s /\ ev = [].
+Proof.
+  destruct s as [run q]. intros H Hr Hdeg.
+  destruct c as [sd| | | |o m|o m|j]; cbn [qual_step qs_run qs_q] in H.
+  - (* Start *)
+    unfold q_start in H.
+    pose proof (vss_refused_noop cf d Hmy (mkVS run (q_v q)) (CStart sd)) as HV.
+    cbn [vss_step vs_run vs_v] in HV.
+    destruct (vss_start cf d run (q_v q) sd) as [[[run' v'] res'] ev'].
+    cbn in H. inversion H; subst. destruct (HV _ _ _ eq_refl Hr Hdeg) as [E1 E2].
+    inversion E1; subst. split; [|reflexivity]. destruct q; reflexivity.
+  - (* NextTimeout *)
+    unfold q_next_timeout in H. destruct run; cbn in H; [|inversion H; auto].
+    destruct (q_ct q); cbn in H; [inversion H; auto|].
+    destruct (q_disq q).
+    + destruct (negb (q_st q)); inversion H; subst; destruct Hr; discriminate.
+    + destruct (negb (q_st q)).
+      * exfalso. eapply qlift_not_refusal; eauto.
+      * destruct (set_complaints_timeout cf d q). inversion H; subst; destruct Hr; discriminate.
+  - (* End *)
+    unfold q_end in H. destruct run; cbn in H; [|inversion H; auto].
+    destruct (negb (q_st q) || negb (q_ct q)); [inversion H; auto|].
+    destruct (negb (q_disq q) && unanswered cf (q_compl q)).
+    + cbn in H. inversion H; subst; destruct Hr; discriminate.
+    + destruct (q_disq q); [inversion H; subst; destruct Hr; discriminate|].
+      exfalso.
+      destruct (end_keys cf (v_x (q_v q)) (v_vA (q_v q)) (v_y (q_v q))) eqn:E; inversion H; subst;
+        eapply (end_keys_not_refusal cf); rewrite E; exact Hr.
+  - inversion H; subst. destruct Hr; discriminate.
+  - unfold q_broadcast in H. destruct run; cbn in H; [|inversion H; auto].
+    destruct (in_range cf o); cbn in H; [|inversion H; auto].
+    destruct (Nat.eqb (c_my cf) (Z.to_nat o)); [inversion H; subst; destruct Hr; discriminate|].
+    destruct (q_disq q); [inversion H; subst; destruct Hr; discriminate|].
+    destruct m; try (inversion H; subst; destruct Hr; discriminate);
+      exfalso; eapply qlift_not_refusal; eauto.
+  - unfold q_private in H. destruct run; cbn in H; [|inversion H; auto].
+    destruct (in_range cf o); cbn in H; [|inversion H; auto].
+    destruct (Nat.eqb (c_my cf) (Z.to_nat o)); [inversion H; subst; destruct Hr; discriminate|].
+    destruct (q_disq q); [inversion H; subst; destruct Hr; discriminate|].
+    exfalso; eapply qlift_not_refusal; eauto.
+  - unfold q_force in H. destruct run; cbn in H; [|inversion H; auto].
+    destruct (in_range cf j); cbn in H; [|inversion H; auto].
+    destruct (Nat.eqb (Z.to_nat j) d); inversion H; subst; destruct Hr; discriminate.
+Qed.
+
+Lemma qual_end_not_running s s' res ev :
+  qual_step cf d s CEnd = (s', res, ev) ->
+  (res = RStateErr -> s' = s) /\ (res <> RStateErr -> qs_run s' = false).
+Proof.
+  intro H. split.
+  - intro E. subst res. eapply qual_refused_noop in H; [apply H|left; reflexivity|reflexivity].
+  - destruct s as [run q]. cbn [qual_step qs_run qs_q] in H. unfold q_end in H.
+    destruct run; cbn in H; [|inversion H; congruence].
+    destruct (negb (q_st q) || negb (q_ct q)); [inversion H; congruence|].
+    destruct (negb (q_disq q) && unanswered cf (q_compl q)); cbn in H.
+    + inversion H; reflexivity.
+    + destruct (q_disq q); [inversion H; reflexivity|].
+      destruct (end_keys cf (v_x (q_v q)) (v_vA (q_v q)) (v_y (q_v q))); inversion H; reflexivity.
+Qed.
+
+(* reuse after End: the timeouts are kept, a restarted instance accepts End at once *)
+Lemma qual_reuse_keeps_timeouts s sd s' res ev :
+  qual_step cf d s (CStart sd) = (s', res, ev) ->
+  q_st (qs_q s') = q_st (qs_q s) /\ q_ct (qs_q s') = q_ct (qs_q s) /\ q_disq (qs_q s') = q_disq (qs_q s).
+Proof.
+  destruct s as [run q]. cbn [qual_step qs_run qs_q]. unfold q_start.
+  destruct (vss_start cf d run (q_v q) sd) as [[[run' v'] res'] ev']. cbn. intro H. inversion H; subst. cbn. auto.
+Qed.
+
+End Qual.
+
+(* ------------------------------------------------------------------ *)
+(* Joint-Feldman                                                        *)
+(* ------------------------------------------------------------------ *)
+Section Joint.
+Variable cf : cfg.
+Hypothesis Hmy : (c_my cf < c_n cf)%nat.
+
+Let n := c_n cf.
+Let my := c_my cf.
+
+Definition jabs (s : jstate) : astate :=
+  let q := hd q_init (j_insts s) in
+  mkA (j_jrun s) (b2n (q_st q) + b2n (q_ct q)).
+
+Definition same_to (l : list qinst) (st ct : bool) : Prop :=
+  forall q, In q l -> q_st q = st /\ q_ct q = ct.
+
+(* per-instance invariant: well-formed, and the own instance has its polynomial while running *)
+Definition inst_ok (need_a : bool) (i : nat) (q : qinst) : Prop :=
+  q_wf cf i q /\ (need_a = true -> my = i -> exists a0 al, v_a (q_v q) = Some (a0 :: al)).
+
+Definition jinv (s : jstate) : Prop :=
+  length (j_insts s) = n /\
+  (forall i q, nth_error (j_insts s) i = Some q -> inst_ok (j_jrun s) i q) /\
+  (exists st ct, same_to (j_insts s) st ct) /\
+  (j_jrun s = true -> j_run s = true).
+
+(* a loop over the instances whose body succeeds on every instance *)
+Section LoopOk.
+Variable f : nat -> bool -> qinst -> bool * qinst * result * list event.
+Variable P : nat -> qinst -> Prop.
+Variable R : qinst -> qinst -> Prop.
+Hypothesis Hf : forall i q, P i q -> (i < n)%nat ->
+  exists q' ev, f i true q = (true, q', ROk, ev) /\ P i q' /\ R q q'.
+
+Lemma jloop_ok : forall qs i0,
+  (forall k q, nth_error qs k = Some q -> P (i0 + k) q) -> (i0 + length qs <= n)%nat ->
+  exists qs' ev, jloop f i0 true qs = (true, qs', ROk, ev) /\
+    (forall k q', nth_error qs' k = Some q' -> P (i0 + k) q') /\
+    Forall2 R qs qs'.
+Proof.
+  induction qs as [|q qs IH]; intros i0 Hw Hl; cbn [jloop].
+  - exists [], []. split; [reflexivity|]. split; [intros k q' E; destruct k; discriminate|constructor].
+  - destruct (Hf i0 q) as (q' & ev & E & W & HR).
+    { specialize (Hw 0%nat q eq_refl). rewrite Nat.add_0_r in Hw. exact Hw. }
+    { cbn in Hl. lia. }
+    rewrite E.
+    destruct (IH (S i0)) as (qs' & ev' & E' & W' & HR').
+    { intros k q0 Ek. specialize (Hw (S k) q0 Ek). replace (S i0 + k)%nat with (i0 + S k)%nat by lia. exact Hw. }
+    { cbn in Hl. lia. }
+    rewrite E'. exists (q' :: qs'), (ev ++ ev'). split; [reflexivity|]. split.
+    + intros k q0 Ek. destruct k; cbn in Ek.
+      * inversion Ek; subst. rewrite Nat.add_0_r. exact W.
+      * specialize (W' k q0 Ek). replace (i0 + S k)%nat with (S i0 + k)%nat by lia. exact W'.
+    + constructor; assumption.
+Qed.
+End LoopOk.
+
+(* a loop whose body is refused on the first instance: nothing happens *)
+Lemma jloop_refused f i0 run q qs res :
+  f i0 run q = (run, q, res, []) -> res <> ROk ->
+  jloop f i0 run (q :: qs) = (run, q :: qs, res, []).
+Proof.
+  intros E Hr. cbn [jloop]. rewrite E. destruct res; try reflexivity. congruence.
+Qed.
+
+Lemma Forall2_length_eq {A B} (R : A -> B -> Prop) l l' : Forall2 R l l' -> length l = length l'.
+Proof. induction 1; cbn; auto. Qed.
+
+Lemma Forall2_nth {A B} (R : A -> B -> Prop) l l' : Forall2 R l l' ->
+  forall k y, nth_error l' k = Some y -> exists x, nth_error l k = Some x /\ R x y.
+Proof.
+  induction 1; intros k z E; destruct k; cbn in E; try discriminate.
+  - inversion E; subst. eexists; split; [reflexivity|assumption].
+  - apply IHForall2. exact E.
+Qed.
+
+Lemma Forall2_nth' {A B} (R : A -> B -> Prop) l l' : Forall2 R l l' ->
+  forall k x, nth_error l k = Some x -> exists y, nth_error l' k = Some y /\ R x y.
+Proof.
+  induction 1; intros k z E; destruct k; cbn in E; try discriminate.
+  - inversion E; subst. eexists; split; [reflexivity|assumption].
+  - apply IHForall2. exact E.
+Qed.
+
+Lemma Forall2_hd (R : qinst -> qinst -> Prop) l l' : Forall2 R l l' -> l <> [] ->
+  R (hd q_init l) (hd q_init l').
+Proof. destruct 1; [congruence|auto]. Qed.
+
+(* all instances carry the same timeout flags after a uniform update *)
+Lemma same_timeouts_after (R : qinst -> qinst -> Prop) qs qs' st' ct' :
+  Forall2 R qs qs' -> (forall q q', In q qs -> R q q' -> q_st q' = st' /\ q_ct q' = ct') ->
+  forall q', In q' qs' -> q_st q' = st' /\ q_ct q' = ct'.
+Proof.
+  intros HF HR q' Hin. apply In_nth_error in Hin as [k Ek].
+  destruct (Forall2_nth R qs qs' HF k q' Ek) as (q & Eq & Rq).
+  apply (HR q q'); [eapply nth_error_In; eauto|exact Rq].
+Qed.
+
+Lemma in_range_lt o : in_range cf o = true -> (Z.to_nat o < n)%nat.
+Proof.
+  unfold in_range. intro E. apply andb_prop in E as [E1 E2].
+  apply Z.leb_le in E1. apply Z.ltb_lt in E2. unfold n. lia.
+Qed.
+
+Lemma hd_in (l : list qinst) : l <> [] -> In (hd q_init l) l.
+Proof. destruct l; [congruence|left; reflexivity]. Qed.
+
+Lemma aut_ok_keeps_running p dealer to c A' :
+  aut_step p cf dealer (mkA true to) c = (A', KOk) -> a_run A' = true.
+Proof.
+  destruct c; cbn; intro H; repeat brk_hyp H; inversion H; reflexivity.
+Qed.
+
+Lemma inst_call_ok i q c A' :
+  inst_ok true i q ->
+  aut_step PQual cf (Nat.eqb my i) (mkA true (b2n (q_st q) + b2n (q_ct q))) c = (A', KOk) ->
+  exists q' ev, qual_step cf i (mkQS true q) c = (mkQS true q', ROk, ev) /\ inst_ok true i q' /\
+                (b2n (q_st q') + b2n (q_ct q'))%nat = a_to A'.
+Proof.
+  intros [Hwf Ha] HA.
+  assert (Hinv : qinv cf i (mkQS true q)).
+  { split; [exact Hwf|]. cbn. intros e _. apply Ha; [reflexivity|exact e]. }
+  pose proof (qual_step_sim cf i Hmy (mkQS true q) c Hinv) as H.
+  destruct (qual_step cf i (mkQS true q) c) as [[s' res] ev].
+  unfold qabs in H at 1. cbn [qs_run qs_q] in H. fold my in H. rewrite HA in H.
+  destruct H as ((W' & Ha') & Hab & Hc).
+  destruct res; try discriminate Hc. destruct s' as [run' q'].
+  pose proof (aut_ok_keeps_running _ _ _ _ _ HA) as Hrun.
+  unfold qabs in Hab. cbn in Hab. destruct A' as [ar ato]. cbn in Hrun. inversion Hab; subst.
+  exists q', ev. split; [reflexivity|]. split; [|reflexivity].
+  split; [exact W'|]. intros _ e. apply Ha'; [exact e|reflexivity].
+Qed.
+
+Lemma to_sum q q' : (q_ct q = true -> q_st q = true) -> (q_ct q' = true -> q_st q' = true) ->
+  (b2n (q_st q) + b2n (q_ct q) = b2n (q_st q') + b2n (q_ct q'))%nat -> q_st q = q_st q' /\ q_ct q = q_ct q'.
+Proof.
+  destruct (q_st q), (q_ct q), (q_st q'), (q_ct q'); cbn; intros A B C; auto; try discriminate;
+    try (specialize (A eq_refl); discriminate); try (specialize (B eq_refl); discriminate).
+Qed.
+
+Lemma in_set_nth {A} (l : list A) i x y : In y (set_nth l i x) -> y = x \/ In y l.
+Proof.
+  revert i; induction l as [|a l IH]; intros i H; cbn in H; [contradiction|].
+  destruct i; cbn in H.
+  - destruct H; [left; auto|right; right; auto].
+  - destruct H as [H|H]; [right; left; auto|]. destruct (IH _ H); [left|right; right]; auto.
+Qed.
+
+Lemma set_nth_length {A} (l : list A) i x : length (set_nth l i x) = length l.
+Proof. revert i; induction l as [|a l IH]; intros [|i]; cbn; auto. Qed.
+
+Lemma nth_set_nth {A} (l : list A) i x k y :
+  nth_error (set_nth l i x) k = Some y ->
+  (k = i /\ y = x) \/ (k <> i /\ nth_error l k = Some y).
+Proof.
+  revert i k; induction l as [|a l IH]; intros i k H; [destruct i, k; discriminate|].
+  destruct i, k; cbn in H.
+  - inversion H; auto.
+  - right; split; [lia|exact H].
+  - right; split; [lia|exact H].
+  - destruct (IH _ _ H) as [[-> ->]|[Hk E]]; [left; auto|right; split; [lia|exact E]].
+Qed.
+
+Lemma nth_set_nth_same {A} (l : list A) i x : (i < length l)%nat -> nth_error (set_nth l i x) i = Some x.
+Proof. revert i; induction l as [|a l IH]; intros [|i] H; cbn in *; try lia; auto. apply IH. lia. Qed.
+
+Lemma same_to_hd l st ct : same_to l st ct -> l <> [] ->
+  q_st (hd q_init l) = st /\ q_ct (hd q_init l) = ct.
+Proof. intros H Hl. apply H. apply hd_in. exact Hl. Qed.
+
+Lemma insts_nonempty s : jinv s -> j_insts s <> [].
+Proof. intros (L & _) E. rewrite E in L. cbn in L. unfold n in L. lia. Qed.
+
+Lemma qpack_inv x r q res ev : qpack x = (mkQS r q, res, ev) -> x = (r, q, res, ev).
+Proof. destruct x as [[[r1 q1] res1] ev1]. cbn. intro H. inversion H. reflexivity. Qed.
+
+Lemma sum_flags q k : (q_ct q = true -> q_st q = true) -> (b2n (q_st q) + b2n (q_ct q))%nat = k ->
+  q_st q = (1 <=? k)%nat /\ q_ct q = (2 <=? k)%nat.
+Proof.
+  destruct (q_st q), (q_ct q); cbn; intros A B; subst k; cbn; auto. specialize (A eq_refl). discriminate.
+Qed.
+
+(* End, first loop *)
+Definition Rend (q q' : qinst) : Prop := q' = q \/ (q_disq q = false /\ q' = qset_disq q true).
+
+Lemma jend_loop_none q qs i0 : q_st q && q_ct q = false ->
+  jend_loop cf i0 (q :: qs) = (q :: qs, [], None).
+Proof.
+  intro H. cbn [jend_loop]. destruct (q_st q), (q_ct q); cbn in *; try discriminate; reflexivity.
+Qed.
+
+Lemma jend_loop_all : forall qs i0,
+  same_to qs true true ->
+  exists qs' ev, jend_loop cf i0 qs = (qs', ev, Some (length (filter q_disq qs'))) /\ Forall2 Rend qs qs'.
+Proof.
+  induction qs as [|q qs IH]; intros i0 Hs; cbn [jend_loop].
+  - exists [], []. split; [reflexivity|constructor].
+  - destruct (Hs q (or_introl eq_refl)) as [Est Ect]. rewrite Est, Ect. cbn [negb orb].
+    destruct (IH (S i0)) as (qs' & ev & E & HF). { intros q0 H0. apply Hs. right. exact H0. }
+    rewrite E.
+    destruct (q_disq q) eqn:Ed; cbn [negb].
+    + exists (q :: qs'), ([] ++ ev). split; [|constructor; [left; reflexivity|exact HF]].
+      cbn [filter]. rewrite Ed. reflexivity.
+    + destruct (unanswered cf (q_compl q)).
+      * exists (qset_disq q true :: qs'), ([EvDisq i0] ++ ev). split; [|constructor; [right; auto|exact HF]].
+        cbn [filter qset_disq q_disq]. reflexivity.
+      * exists (q :: qs'), ([] ++ ev). split; [|constructor; [left; reflexivity|exact HF]].
+        cbn [filter]. rewrite Ed. reflexivity.
+Qed.
+
+Lemma Rend_wf i q q' : Rend q q' -> q_wf cf i q -> q_wf cf i q'.
+Proof.
+  intros [->|[Hd ->]] H; [exact H|]. unfold q_wf in *. cbn.
+  destruct H as (A & B & C & D). split; [exact A|]. split; [intros; discriminate|].
+  split; [intros; discriminate|exact D].
+Qed.
+
+Lemma Rend_to q q' : Rend q q' -> q_st q' = q_st q /\ q_ct q' = q_ct q.
+Proof. intros [->|[_ ->]]; auto. Qed.
+
+Lemma filter_complement {A} (f : A -> bool) l :
+  (length (filter f l) + length (filter (fun x => negb (f x)) l) = length l)%nat.
+Proof. induction l as [|a l IH]; cbn; [reflexivity|]. destruct (f a); cbn; lia. Qed.
+
+Lemma opt_all_some {A B} (f : A -> option B) l :
+  (forall x, In x l -> exists y, f x = Some y) -> exists ys, opt_all (map f l) = Some ys.
+Proof.
+  induction l as [|a l IH]; intro H; cbn; [eauto|].
+  destruct (H a (or_introl eq_refl)) as [y Ey]. rewrite Ey.
+  destruct IH as [ys Eys]; [intros; apply H; right; assumption|]. rewrite Eys. eauto.
+Qed.
+
+Lemma sum_up_ok qs :
+  (forall q, In q qs -> q_st q = true /\ exists i, q_wf cf i q) ->
+  qualified qs <> [] -> exists x Y ys, sum_up cf qs = Some (x, Y, ys).
+Proof.
+  intros Hq Hne. unfold sum_up.
+  destruct (qualified qs) as [|q0 ql] eqn:Eq; [congruence|]. rewrite <- Eq. clear Hne.
+  assert (Hql : forall q, In q (qualified qs) ->
+            exists a0 al ys, v_vA (q_v q) = VAFull (a0 :: al) /\ v_y (q_v q) = Some ys /\ length ys = n).
+  { intros q Hin. unfold qualified in Hin. apply filter_In in Hin as [Hin Hd].
+    apply negb_true_iff in Hd. destruct (Hq q Hin) as [Hst [i (W & Q1 & Q2 & Q3)]].
+    pose proof (Q2 Hst Hd) as Hr. destruct (Q1 Hr Hd) as [ys Ey].
+    destruct W as (W1 & W3 & W4 & W5). destruct (W4 Hr (ex_intro _ ys Ey)) as (a0 & al & Ea).
+    exists a0, al, ys. repeat split; auto. }
+  destruct (opt_all_some vA0 (qualified qs)) as [pks Ep].
+  { intros q Hin. destruct (Hql q Hin) as (a0 & al & ys & Ea & _). unfold vA0. rewrite Ea. eauto. }
+  rewrite Ep.
+  destruct (opt_all_some (fun j => opt_all (map (yj j) (qualified qs))) (seq 0 (c_n cf))) as [yss Ey].
+  { intros j Hj. apply in_seq in Hj. apply opt_all_some. intros q Hin.
+    destruct (Hql q Hin) as (a0 & al & ys & _ & Ey & Ly). unfold yj. rewrite Ey.
+    destruct (nth_error ys j) eqn:En; [eauto|]. apply nth_error_None in En. unfold n in Ly. lia. }
+  rewrite Ey. rewrite Eq. eauto.
+Qed.
+
+Lemma nth_error_lt {A} (l : list A) i : (i < length l)%nat -> exists x, nth_error l i = Some x.
+Proof. intro H. destruct (nth_error l i) eqn:E; [eauto|]. apply nth_error_None in E. lia. Qed.
+
+(* the loop over all instances for a call every instance accepts *)
+Lemma jloop_call_ok s c (g : nat -> nat) :
+  jinv s -> j_jrun s = true ->
+  (forall i q, inst_ok true i q ->
+     aut_step PQual cf (Nat.eqb my i) (mkA true (b2n (q_st q) + b2n (q_ct q))) c
+     = (mkA true (g (b2n (q_st q) + b2n (q_ct q))), KOk)) ->
+  forall f, (forall i q, qual_step cf i (mkQS true q) c = qpack (f i true q)) ->
+  exists qs' ev, jloop f 0 true (j_insts s) = (true, qs', ROk, ev) /\
+     jinv (mkJ true true qs') /\
+     jabs (mkJ true true qs') = mkA true (g (a_to (jabs s))).
+Proof.
+  intros (L & Hi & (st & ct & Hs) & J4) Hj HA f Hf. rewrite Hj in Hi.
+  pose proof (insts_nonempty s (conj L (conj Hi (conj (ex_intro _ st (ex_intro _ ct Hs)) J4)))) as Hne.
+  destruct (jloop_ok f (inst_ok true)
+              (fun q q' => (b2n (q_st q') + b2n (q_ct q'))%nat = g (b2n (q_st q) + b2n (q_ct q))%nat))
+    with (qs := j_insts s) (i0 := 0%nat) as (qs' & ev & E & W' & HF).
+  - intros i q Hq Hlt. destruct (inst_call_ok i q c _ Hq (HA i q Hq)) as (q' & ev & E & W & Hsum).
+    rewrite Hf in E. apply qpack_inv in E. exists q', ev. split; [exact E|]. split; [exact W|exact Hsum].
+  - intros k q E. apply Hi. exact E.
+  - rewrite L. lia.
+  - exists qs', ev. split; [exact E|].
+    destruct (same_to_hd _ _ _ Hs Hne) as [Hst Hct].
+    assert (Hs' : same_to qs' (1 <=? g (b2n st + b2n ct))%nat (2 <=? g (b2n st + b2n ct))%nat).
+    { intros q' Hin. apply In_nth_error in Hin as [k Ek].
+      destruct (Forall2_nth _ _ _ HF k q' Ek) as (q & Eq & Rq).
+      destruct (Hs q (nth_error_In _ _ Eq)) as [E1 E2]. rewrite E1, E2 in Rq.
+      apply sum_flags; [|exact Rq]. destruct (W' k q' Ek) as [(_ & _ & _ & Q3) _]. exact Q3. }
+    assert (Hne' : qs' <> []).
+    { intro E0. subst qs'. apply Forall2_length_eq in HF. cbn in HF. rewrite L in HF. unfold n in HF. lia. }
+    split.
+    + split; [rewrite <- (Forall2_length_eq _ _ _ HF); exact L|].
+      split; [exact W'|]. split; [eauto|auto].
+    + unfold jabs. cbn [j_insts j_jrun]. destruct (same_to_hd _ _ _ Hs' Hne') as [A B].
+      assert (Hhd : In (hd q_init qs') qs') by (apply hd_in; exact Hne').
+      apply In_nth_error in Hhd as [k Ek].
+      destruct (Forall2_nth _ _ _ HF k _ Ek) as (q & Eq & Rq).
+      destruct (Hs q (nth_error_In _ _ Eq)) as [E1 E2]. rewrite E1, E2 in Rq. rewrite Rq, Hst, Hct. reflexivity.
+Qed.
+
+End Joint.
